@@ -73,10 +73,11 @@ const (
 )
 
 type op struct {
-	kind  opKind
-	ch    *core
-	val   any
-	cases []*core
+	kind       opKind
+	ch         *core
+	val        any
+	cases      []*core
+	hasDefault bool // select with a default case: never blocks
 	// results
 	rval any
 	ok   bool
@@ -322,6 +323,9 @@ func (t trans) object() any {
 }
 
 func (t trans) indep(u trans) bool {
+	if t.kind == "default" || u.kind == "default" { // enabled only while no case is ready: depends on every case channel
+		return false
+	}
 	if t.x == u.x || (t.r != nil && (t.r == u.x || t.r == u.r)) || (u.r != nil && u.r == t.x) {
 		return false
 	}
@@ -427,15 +431,27 @@ func (s *sched) enabled() []trans {
 				ts = append(ts, trans{kind: "recvc", x: x})
 			}
 		case opSelect:
+			ready := false
 			for i, c := range o.cases {
 				if c == nil {
 					continue
 				}
 				if len(c.buf) > 0 {
 					ts = append(ts, trans{kind: "pop", x: x, idx: i})
+					ready = true
 				} else if c.closed {
 					ts = append(ts, trans{kind: "recvc", x: x, idx: i})
+					ready = true
+				} else if c.cap == 0 {
+					for _, sd := range s.gs { // a parked sender makes the case ready (the xfer is listed at the sender)
+						if !sd.done && sd != x && sd.op != nil && sd.op.kind == opSend && sd.op.ch == c {
+							ready = true
+						}
+					}
 				}
+			}
+			if o.hasDefault && !ready { // Go takes the default case only when no other case can proceed
+				ts = append(ts, trans{kind: "default", x: x})
 			}
 		}
 	}
@@ -504,6 +520,10 @@ func (s *sched) fire(t trans) {
 	case "mark":
 		ev.Kind, ev.Ch = o.mkind, o.names
 		s.ready = append(s.ready, x)
+	case "default":
+		o.idx = -1
+		ev.Kind, ev.Ch = "default", "select"
+		s.ready = append(s.ready, x)
 	case "panic-send":
 		s.panicNow(x, "send on closed channel", o.ch.name)
 		return
@@ -564,8 +584,16 @@ func Make[T any](name string, capacity int) *Chan[T] {
 // SetTag sets the integer that represents this channel when it is sent over another channel.
 func (ch *Chan[T]) SetTag(t int) *Chan[T] { ch.c.tag = t; return ch }
 
+// NilTag is what a nil channel prints as when it is sent over another channel.
+const NilTag = 999999
+
 // VTag implements Tagged.
-func (ch *Chan[T]) VTag() int { return ch.c.tag }
+func (ch *Chan[T]) VTag() int {
+	if ch == nil {
+		return NilTag
+	}
+	return ch.c.tag
+}
 
 func (ch *Chan[T]) core() *core {
 	if ch == nil {
@@ -638,13 +666,20 @@ func (c *RecvCase[T]) set(v any, ok bool) {
 }
 
 // Select blocks until one of the receive cases is chosen; returns its index.
-func Select(cases ...SelCase) int {
+func Select(cases ...SelCase) int { return sel(false, cases) }
+
+// SelectDefault is a select with a default case: returns -1 when no receive case can proceed.
+func SelectDefault(cases ...SelCase) int { return sel(true, cases) }
+
+func sel(def bool, cases []SelCase) int {
 	cs := make([]*core, len(cases))
 	for i, c := range cases {
 		cs[i] = c.chanCore()
 	}
-	o := park(&op{kind: opSelect, cases: cs})
-	cases[o.idx].set(o.rval, o.ok)
+	o := park(&op{kind: opSelect, cases: cs, hasDefault: def})
+	if o.idx >= 0 && o.idx < len(cases) {
+		cases[o.idx].set(o.rval, o.ok)
+	}
 	return o.idx
 }
 
